@@ -42,14 +42,18 @@ CHECKS.update({
              'each user constraint (convex atoms, cones, piecewise-linear maxof/minof constraints with numeric pieces) '
              'and the objective are evaluated by NumPy at x.get(); a violated constraint or a misreported objective is '
              'the witness. Perspective / exp-cone constraints of dro models whose arguments have different event-wise adaptivity are '
-             'evaluated per scenario at the returned point. icontract post-condition on rso_broadcast is on.',
+             'evaluated per scenario at the returned point. 15 % of the ro models start with a prelude (a few decoupled variables under an '
+             'abs / 1-norm constraint, an epigraph variable carrying the objective, one formulation or solve) before the '
+             'variables of the spec - integer ones included - are declared. icontract post-condition on rso_broadcast is on.',
         note='Closed forms in rv/atoms.py define the meaning of atoms; solver tolerances 1e-6 / 2e-5.',
         ref='4/C06', engine='rv-reference'),
     'C07': dict(
         technique='runtime reference-model monitor: pinned-argument closed forms, improving-feasible-point adversary, brute-force enumeration',
         text='Pinned-argument models must return each atom\'s closed-form value (parameter sweeps); an adversary searches '
              'for a feasible strictly better point of the user\'s model; small integer models are enumerated; element-wise '
-             'atoms on operands of every broadcastable shape must return NumPy\'s values entry by entry.',
+             'atoms on operands of every broadcastable shape must return NumPy\'s values entry by entry; 40 % of the '
+             'enumerated integer models (ro front end) are declared after a prelude formulation / solve that has already '
+             'used auxiliary columns.',
         note='An adversary that finds nothing is not a proof of optimality; closed forms are the reference.',
         ref='4/C07', engine='rv-reference'),
 })
@@ -79,7 +83,8 @@ CHECKS.update({
     'C16': dict(
         technique='runtime differential monitor: independent LP-format reader, gurobipy.read round trip, cell-by-cell show() comparison',
         text='lp_export()/to_lp() text is parsed by rv/lpformat.py and must reproduce the formula arrays exactly; Gurobi reads '
-             'the file and must reach the direct optimum; every cell of show() is compared with the formula.',
+             'the file and must reach the direct optimum; every cell of show() is compared with the formula (also for '
+             'exponential-cone programs: EC rows and their sense/constant cells).',
         note='Exp-cone rows are not exportable (outside the statement); Gurobi reader semantics for bounded binaries skipped.',
         ref='4/C16', engine='rv-differential'),
     'C19': dict(
@@ -140,7 +145,7 @@ CHECKS.update({
         technique='runtime differential monitor over API histories (hostile history vs fresh build) + comparison of the captured uncertainty-set programs',
         text='The same declared ro/dro model is built by a hostile history (distractor sets, mid-way do_math/dual/solve with '
              'varying interfaces, late constraints/variables/rules, a random variable declared between two uses of a rule, '
-             'reused expression objects, redefined supports and probability sets, one event declared in two exptset calls, '
+             'reused expression objects, redefined supports and probability sets, a scenario support replaced through a scenario selector after the first solve, one event declared in two exptset calls, '
              'second ambiguity object, forall() attached to constraints already in the model, adapt() calls made after the '
              'constraints or after a first solve, sets without any linear piece) and by a fresh build; optimum and captured support programs must agree; an exception in one '
              'only is a disagreement.',
